@@ -42,9 +42,7 @@ type notationClass_ struct {
 
 func (c *notationClass_) Make() col.NotationLike {
 	return &notation_{
-		class_:     c,
-		formatter_: Formatter().Make(),
-		parser_:    Parser().Make(),
+		class_: c,
 	}
 }
 
@@ -52,10 +50,11 @@ func (c *notationClass_) Make() col.NotationLike {
 
 // Target
 
+// A notation has no mutable state of its own: the collection classes cache the
+// first notation they are given and every String() call of every collection of
+// that type goes through it, possibly from different goroutines.
 type notation_ struct {
-	class_     col.NotationClassLike
-	formatter_ FormatterLike
-	parser_    ParserLike
+	class_ col.NotationClassLike
 }
 
 // Attributes
@@ -67,11 +66,13 @@ func (v *notation_) GetClass() col.NotationClassLike {
 // Canonical
 
 func (v *notation_) FormatValue(value any) (source string) {
-	source = v.formatter_.FormatValue(value)
+	// Each call gets its own formatter (result buffer and depth counter).
+	source = Formatter().Make().FormatValue(value)
 	return source
 }
 
 func (v *notation_) ParseSource(source string) (value any) {
-	value = v.parser_.ParseSource(source)
+	// Each call gets its own parser (token queue and stack).
+	value = Parser().Make().ParseSource(source)
 	return value
 }
